@@ -34,6 +34,7 @@
 -/
 import SF.Gotype.Unfold
 import SF.Proofs.UnfGenericTop
+import SF.Proofs.UnfConsTop
 namespace SF.Props.C14
 open SF SF.Unf
 
@@ -112,3 +113,85 @@ example : arrPreallocLen (2 ^ 63 - 1) = 1024 ∧ arrPreallocLen (2 ^ 62) = 1024 
     arrPreallocLen 3 = 3 ∧ arrPreallocLen 0 = 0 := by decide
 
 end SF.Props.C14
+
+
+/-! ## TYPED targets (proofs SF/Proofs/UnfTy*.lean, UnfConsTop.lean)
+
+Family `TT`: bool, string, every integer width, float32 / float64, `interface{}`, closed under
+`[]T`, `map[string]T`, `*T` at any nesting (no structs, no named types).  The invariant describes
+the frames on the six stacks, the slot accounting of the scratch buffers and that every live
+pointer resolves to a value of the shape its owner relies on — over all template, generic
+sub-container and reflection states. -/
+
+namespace SF.PropsTyped.C14
+open SF SF.Unf SF.Ops.Unf
+open SF.UnfProofs.Cons (deliver Shaped Idle)
+
+/-- C14 (no-panic clause) FOR TYPED TARGETS, EVERY EVENT SEQUENCE.  `SetTarget(&v)` for a `v` of any
+type of the family (holding any value of that type) on an idle Unfolder, followed by ANY sequence
+of events — mismatching, unbalanced, truncated, keys outside objects, wrong announced lengths,
+out-of-range numbers, containers where scalars belong, events after the document is complete —:
+`.ok`, or an ERROR, or — only if the sequence contains a container start announcing an element-type
+code 17 … 255 reaching an `interface{}` position (not a BaseType) — the panic of `makeArrayPtr` /
+`makeMapPtr`.  Never fuel exhaustion, never a model gap (no stale pointer, no value of the wrong
+shape behind a pointer), no other panic: no pop of an empty stack, no nil dereference, no write to
+a nil map, no out-of-range scratch slot. -/
+theorem any_events_into_typed (fuel : Nat) (hf : typeFuel ≤ fuel) (tbl : TypeTable) (t : GoType) (v0 : GoVal)
+    (c c0 : Ctx) (es : List UEv) (hes : ∀ e ∈ es, ¬ e.isKeyRef) (hT : TT t = true) (hidle : Idle c)
+    (hv0 : Shaped t v0) (hset : setTarget tbl t v0 c = .ok c0) :
+    (∃ c', run fuel es c0 = .ok () c') ∨
+    (∃ e c', run fuel es c0 = .err e c') ∨
+    (∃ c' e, run fuel es c0 = .panic c' ∧ e ∈ es ∧ e.badStart) :=
+  SF.UnfProofs.Cons.any_events_into_typed fuel hf tbl t v0 c c0 es hes hT hidle hv0 hset
+
+/-- … every EXTENDED event sequence (typed arrays / maps, strings and keys by reference), with a
+key cache that has its invariant (C20) -/
+theorem any_ext_events_into_typed (fuel : Nat) (hf : typeFuel ≤ fuel) (tbl : TypeTable) (t : GoType) (v0 : GoVal)
+    (c c0 : Ctx) (xs : List XEv) (hT : TT t = true) (hidle : Idle c) (hkc : Symbols.Inv c.keyCache)
+    (hv0 : Shaped t v0) (hset : setTarget tbl t v0 c = .ok c0) :
+    (∃ c', run fuel (deliver xs) c0 = .ok () c') ∨
+    (∃ e c', run fuel (deliver xs) c0 = .err e c') ∨
+    (∃ c' x, run fuel (deliver xs) c0 = .panic c' ∧ x ∈ xs ∧ SF.UnfProofs.Cons.XEv.badStart x) :=
+  SF.UnfProofs.Cons.any_ext_events_into_typed fuel hf tbl t v0 c c0 xs hT hidle hkc hv0 hset
+
+/-- … with valid element-type codes: ok or error, nothing else -/
+theorem no_panic_any_events_into_typed (fuel : Nat) (hf : typeFuel ≤ fuel) (tbl : TypeTable) (t : GoType)
+    (v0 : GoVal) (c c0 : Ctx) (es : List UEv) (hes : ∀ e ∈ es, ¬ e.isKeyRef) (hT : TT t = true) (hidle : Idle c)
+    (hv0 : Shaped t v0) (hset : setTarget tbl t v0 c = .ok c0) (hcodes : ∀ e ∈ es, ¬ e.badStart) :
+    (∃ c', run fuel es c0 = .ok () c') ∨ (∃ e c', run fuel es c0 = .err e c') :=
+  SF.UnfProofs.Cons.no_panic_any_events_into_typed fuel hf tbl t v0 c c0 es hes hT hidle hv0 hset hcodes
+
+/-- C17 for the Unfolder on typed targets: whenever a sequence is accepted and has brought the
+unfolder stack back to idle (the document is complete), ALL six stacks are exactly those of the
+idle Unfolder and every scratch slot has been released -/
+theorem typed_complete_is_idle (fuel : Nat) (hf : typeFuel ≤ fuel) (tbl : TypeTable) (t : GoType) (v0 : GoVal)
+    (c c0 c' : Ctx) (es : List UEv) (hes : ∀ e ∈ es, ¬ e.isKeyRef) (hT : TT t = true) (hidle : Idle c)
+    (hv0 : Shaped t v0) (hset : setTarget tbl t v0 c = .ok c0) (hrun : run fuel es c0 = .ok () c')
+    (hdone : c'.unfolder.stack = []) :
+    Idle c' ∧ c'.ptr = c.ptr ∧ c'.value = c.value ∧ c'.key = c.key ∧ c'.idx = c.idx ∧ c'.baseType = c.baseType :=
+  SF.UnfProofs.Cons.typed_complete_is_idle fuel hf tbl t v0 c c0 c' es hes hT hidle hv0 hset hrun hdone
+
+/-- the hypotheses hold for every Unfolder the API produces between documents and for zero values -/
+theorem idle_new : Idle newUnfolder := SF.UnfProofs.Cons.idle_new
+theorem idle_reset (c : Ctx) : Idle (reset c) := SF.UnfProofs.Cons.idle_reset c
+theorem shaped_zero (tbl : TypeTable) (t : GoType) : Shaped t (zero tbl t) := SF.UnfProofs.Cons.shaped_zero tbl t
+
+/-- non-vacuity: `map[string][]*int64` is in the family, `SetTarget` accepts it on a new Unfolder;
+`{"a": [5, null]}` is accepted and leaves all six stacks idle; a string where the `*int64` belongs
+and an unbalanced sequence are refused with errors -/
+example : TT SF.UnfProofs.Cons.demoT = true ∧
+    (match setTarget (fun _ => none) SF.UnfProofs.Cons.demoT (zero (fun _ => none) SF.UnfProofs.Cons.demoT) newUnfolder with
+     | .ok c₀ =>
+       (match run typeFuel [.objStart 1 0, .key [0x61], .arrStart 2 0, .scalar (.num .i8 5), .scalar .nil,
+                            .arrEnd, .objEnd] c₀ with
+        | .ok _ c₁ => c₁.depths == [0, 0, 0, 0, 0, 0]
+        | _ => false) &&
+       (match run typeFuel [.objStart 1 0, .key [0x61], .arrStart 2 0, .scalar (.str [0x78])] c₀ with
+        | .err .unsupported _ => true
+        | _ => false) &&
+       (match run typeFuel [.objStart 1 0, .arrEnd, .key [0x61]] c₀ with
+        | .err .expectedObjectKey _ => true
+        | _ => false)
+     | .error _ => false) = true := by decide +kernel
+
+end SF.PropsTyped.C14
